@@ -95,8 +95,11 @@ func TestCheck(t *testing.T) {
 	// whatever follows: they are enumerated to length 3 (quick) / 4 (thorough);
 	// chains that start at a share claim to length 4 (quick) / 5 (thorough)
 	maxLenShare, maxLenOther := 4, 3
+	// spellings of the assemble parameter: share-start chains to length 3 / 4, others to 2 / 3
+	spellShare, spellOther := 3, 2
 	if vk.Thorough() {
 		maxLenShare, maxLenOther = 5, 4
+		spellShare, spellOther = 4, 3
 	}
 	// the auth part first: it is short, and the share part is the one that may meet the budget
 	if os.Getenv("C17_ONLY") != "share" {
@@ -104,6 +107,6 @@ func TestCheck(t *testing.T) {
 	}
 	if os.Getenv("C17_ONLY") != "auth" {
 		inFlight.Store("share chains")
-		runShare(res, maxLenShare, maxLenOther)
+		runShare(res, maxLenShare, maxLenOther, spellShare, spellOther)
 	}
 }
